@@ -1,7 +1,7 @@
 """Per-property metadata for the driver: shard counts, wall limits, evidence rule text."""
 
 def register_all(prop):
-    prop("C17", qshards=8, tshards=16, qlimit=300, tlimit=2400,
+    prop("C17", qshards=8, tshards=16, qlimit=300, tlimit=2400, fuzz=[("FuzzDecodeTotal", 90), ("FuzzRoundTrip", 90)],
          rule=("roundtrip: rapid draws a message type and a value for every field of the PINNED released schema "
                "(strings incl. empty/unicode/control/10KiB, extreme ints, maps, lists, nil/zero/IPv4/IPv6 UDP addrs), "
                "reference-encodes it, feeds the frame to msg.ReadMsg, checks field binding by reflection, re-encodes with "
@@ -81,7 +81,7 @@ def register_all(prop):
                "bit-exactly through the visitor's wrappers (keyed by sk) and the proxy's (keyed by the token) in all 16 combinations. non-trivial = "
                "request against an existing proxy where signature validity and run-id validity differ, or an admitted stream with differing wrappers."),
          assumptions=["nathole.NatHoleTimeout (exported variable) is set to 1 s by the harness", "sudp admitted streams carry protocol messages: only admission is decided here, payloads in C03"])
-    prop("C20", qshards=8, tshards=16, qlimit=480, tlimit=3600,
+    prop("C20", qshards=8, tshards=16, qlimit=480, tlimit=3600, fuzz=[("FuzzAnalyzerRoles", 90)],
          rule=("controller_exchange: generated NAT observations for visitor and owner (2..5 mapped addresses shaped easy / regular port change / irregular "
                "/ IP change / both / too short / one malformed or out-of-range entry; 0..3 assisted addresses; IPv4 and IPv6) go through "
                "nathole.Controller with stub transporters, incl. duplicate NatHoleClient, reports for unknown sids and a third control; oracle = same "
@@ -104,7 +104,7 @@ def register_all(prop):
                "edited content, unregistered operations reach no stub, CloseProxy notifications arrive for explicit close and session end. "
                "non-trivial = >= 2 plugins registered for the operation and >= 1 outcome other than accept-unchanged."),
          assumptions=["bodies 'null' and '{}' (valid JSON) are not generated: the property only speaks of unparsable bodies"])
-    prop("C06", qshards=8, tshards=16, qlimit=480, tlimit=3000,
+    prop("C06", qshards=8, tshards=16, qlimit=480, tlimit=3000, fuzz=[("FuzzHTTPTable", 120)],
          rule=("http_table: 3..30 operations (register / unregister / duplicate or re-register by another owner / lookup) on vhost.HTTPReverseProxy; "
                "hosts over labels {a,b,c,d} with 1..4 labels, wildcards with >= 2 fixed labels, catch-all, random letter case; locations {'', /, /a, /ab, "
                "/a/b, /b}; users {'', u1, u2}; lookups are real requests through ServeHTTP (Host with port suffix / trailing dot / case, Basic user) "
@@ -124,7 +124,7 @@ def register_all(prop):
                "tcpmux_connect, client_plugins (http_proxy, socks5, static_file through plugin.Create().Handle over pipes) and web_apis (frps dashboard "
                "and frpc admin API, every registered route x methods) use the same credential grammar. non-trivial = a protected route/service is addressed."),
          assumptions=["/healthz of the web servers is an unauthenticated liveness endpoint by design and is not claimed", "pprof endpoints are not enabled"])
-    prop("C18", qshards=8, tshards=16, qlimit=480, tlimit=3000,
+    prop("C18", qshards=8, tshards=16, qlimit=480, tlimit=3000, fuzz=[("FuzzFormats", 90), ("FuzzValidation", 60)],
          rule=("formats: a logical client (common section + 0..4 proxies of the 8 types + 0..2 visitors, every documented field incl. plugins, health checks, "
                "header maps, unicode / dotted names) or server configuration is generated as a generic tree, rendered to JSON, YAML (sigs.k8s.io/yaml) and "
                "TOML (go-toml/v2) by independent encoders and loaded with config.LoadConfigure in both strict modes; the three loads must be identical and equal "
